@@ -1,4 +1,4 @@
-import MtailVerif.Model.MetricSpec
+import MtailVerif.Model.Metric
 import MtailVerif.Model.Buckets
 /-! Model of the bytecode VM (internal/runtime/vm/vm.go): one `step` clause per opcode with the
     same pops, the same type switches (`PopInt`, `PopFloat`, `PopString`), the same checked
@@ -12,7 +12,7 @@ import MtailVerif.Model.Buckets
 namespace MtailVerif.VM
 open MtailVerif
 
-/-- an instant: nanoseconds since the Unix epoch; `zeroT` is Go's zero `time.Time` (year 1) -/
+/-- an instant: nanoseconds since the Unix epoch (unbounded); `zeroT` is Go's zero `time.Time` -/
 abbrev T := Int
 def zeroT : T := -62135596800000000000
 
@@ -23,13 +23,19 @@ inductive DVal
   | str (s : Bytes)
   | buckets (b : Buckets.B UInt64)
 
-/-- a datum: payload and timestamp (`none` = stamped with the wall clock) -/
+/-- `metrics.Type` of a payload: 0 Int, 1 Float, 2 String, 3 Buckets -/
+def DVal.ty : DVal → Nat
+  | .int _ => 0 | .float _ => 1 | .str _ => 2 | .buckets _ => 3
+
+/-- a datum: payload and timestamp in int64 nanoseconds (`none` = stamped with the wall clock
+    during this run) -/
 structure Datum where
   val : DVal
-  time : Option T
+  time : Option Int
 
 /-- what sits on the VM's stack (`interface{}` in Go) -/
 inductive Val
+  | nil
   | bool (b : Bool)
   | i64 (n : Int)                 -- Go int64
   | int (n : Int)                 -- Go int (operands of Push, results of Length, regexp indices)
@@ -69,9 +75,13 @@ structure Prog where
   nre : Nat                       -- number of regular expressions
   metrics : List MetricInfo
 
+structure Input where
+  filename : Bytes
+  line : Bytes
+
 /-- results of the standard library, as far as this program run consults it -/
 structure Oracle where
-  reMatch : Nat → Bytes → Option (List Bytes)          -- FindStringSubmatch
+  reMatch : Nat → Bytes → Option (List Bytes)          -- re[i].FindStringSubmatch(s)
   parseInt : Bytes → Int → Option Int                   -- strconv.ParseInt(s, base, 64)
   parseFloat : Bytes → Option UInt64
   fadd : UInt64 → UInt64 → UInt64
@@ -87,9 +97,9 @@ structure Oracle where
   fmtg : UInt64 → Bytes                                 -- fmt.Sprintf("%g", f)
   toLower : Bytes → Bytes
   replaceAll : Bytes → Bytes → Bytes → Bytes            -- strings.ReplaceAll(val, old, new)
-  reReplace : Nat → Bytes → Bytes → Bytes               -- re.ReplaceAllLiteralString(val, repl)
+  reReplace : Nat → Bytes → Bytes → Bytes               -- re[i].ReplaceAllLiteralString(val, repl)
   timeParse : Bytes → Bytes → Option T                  -- layout, value (location and current-year rule applied)
-  nowSec : Int
+  nowSec : Int                                          -- time.Now().Unix()
 
 /-- the checked runtime errors -/
 inductive RtErr
@@ -103,102 +113,184 @@ inductive Fault
 deriving DecidableEq, Repr
 
 abbrev MStore := List (Metric.Metric Datum)
+abbrev Memo := List ((Bytes × Bytes) × T)     -- strptime memo: (layout, value) ↦ instant, most recent first
 
 structure Thread where
   pc : Nat := 0
   matched : Bool := false
-  caps : List (Nat × List Bytes) := []     -- regexp index ↦ submatches of its last match
+  caps : List (Nat × Option (List Bytes)) := []   -- `matches`: regexp index ↦ result of its last match (nil = no match)
   time : T := zeroT
   stack : List Val := []
-
-/-- what survives between lines -/
-structure State where
-  store : MStore
-  memo : List ((Bytes × Bytes) × T)           -- strptime memo: (layout, value) ↦ instant, most recent first
+  /-- label values removed by `del` on this line: datum pointers to them may still be on the stack -/
+  dead : List (Nat × Metric.LV Datum) := []
 
 inductive Res
-  | next (t : Thread) (s : State)
-  | stop (s : State)                          -- `stop`: the line ends normally
-  | err (e : RtErr) (s : State)               -- checked runtime error: effects so far are kept
-  | fault (f : Fault) (s : State)
+  | next (t : Thread) (st : MStore)
+  | stop (st : MStore)                          -- `stop`: the line ends normally
+  | err (e : RtErr) (st : MStore)               -- checked runtime error: effects so far are kept
+  | fault (f : Fault) (st : MStore)
 
 def wrap (x : Int) : Int := ((x + 9223372036854775808) % 18446744073709551616) - 9223372036854775808
 
 def itoa (n : Int) : Bytes := (toString n).toUTF8.toList
 
-/-- `PopInt` on a value -/
-inductive Conv (α : Type) | ok (a : α) | convErr | typeErr
+/-! ### datum access through a pointer -/
 
-def asInt (o : Oracle) (st : MStore) : Val → Conv Int
-  | .i64 n => .ok n
-  | .int n => .ok n
-  | .str s => match o.parseInt s 10 with | some n => .ok n | none => .convErr
-  | .datum m lv =>
-    match (st[m]?).bind (fun mm => Metric.byId lv mm.lvs) with
-    | some l => match l.value.val with | .int v => .ok v | _ => .typeErr     -- datum.GetInt panics otherwise
-    | none => .typeErr
-  | _ => .typeErr
+def deadLookup (m lv : Nat) : List (Nat × Metric.LV Datum) → Option Datum
+  | [] => none
+  | (m', l) :: rest => if m' = m ∧ l.id = lv then some l.value else deadLookup m lv rest
 
-def asFloat (o : Oracle) (st : MStore) : Val → Conv UInt64
-  | .f64 b => .ok b
-  | .int n => .ok (o.i2f n)
-  | .str s => match o.parseFloat s with | some b => .ok b | none => .convErr
-  | .datum m lv =>
-    match (st[m]?).bind (fun mm => Metric.byId lv mm.lvs) with
-    | some l => match l.value.val with | .float v => .ok v | _ => .typeErr
-    | none => .typeErr
-  | _ => .typeErr                               -- note: no int64 case in `PopFloat`
+/-- the datum a pointer refers to: a live label value of the metric, or one removed on this line -/
+def getD (st : MStore) (dead : List (Nat × Metric.LV Datum)) (m lv : Nat) : Option Datum :=
+  match (st[m]?).bind (fun mm => Metric.byId lv mm.lvs) with
+  | some l => some l.value
+  | none => deadLookup m lv dead
 
-def asString (o : Oracle) (st : MStore) : Val → Conv Bytes
-  | .str s => .ok s
-  | .f64 b => .ok (o.fmtG b)
-  | .int n => .ok (itoa n)
-  | .i64 n => .ok (itoa n)
-  | .datum m lv =>
-    match (st[m]?).bind (fun mm => Metric.byId lv mm.lvs) with
-    | some l => match l.value.val with | .str v => .ok v | _ => .typeErr
-    | none => .typeErr
-  | _ => .typeErr
+def deadUpdate (m lv : Nat) (f : Datum → Datum) : List (Nat × Metric.LV Datum) → List (Nat × Metric.LV Datum)
+  | [] => []
+  | (m', l) :: rest =>
+    if m' = m ∧ l.id = lv then (m', { l with value := f l.value }) :: rest
+    else (m', l) :: deadUpdate m lv f rest
+
+/-- a write through a datum pointer -/
+def updD (st : MStore) (dead : List (Nat × Metric.LV Datum)) (m lv : Nat) (f : Datum → Datum) :
+    MStore × List (Nat × Metric.LV Datum) :=
+  match st[m]? with
+  | some mm =>
+    (match Metric.byId lv mm.lvs with
+     | some _ => (st.set m (Metric.updateDatum mm lv f), dead)
+     | none => (st, deadUpdate m lv f dead))
+  | none => (st, deadUpdate m lv f dead)
+
+/-! ### typed pops (`PopInt`, `PopFloat`, `PopString`) -/
+
+inductive P (α : Type)
+  | ok (a : α) (rest : List Val)
+  | bad (f : Fault)
+  | conv                          -- "conversion of %q to int/float failed"
+
+def popInt (o : Oracle) (st : MStore) (dead : List (Nat × Metric.LV Datum)) : List Val → P Int
+  | [] => .bad .stackUnderflow
+  | v :: rest =>
+    match v with
+    | .i64 n => .ok n rest
+    | .int n => .ok n rest
+    | .f64 b => .ok (o.f2i b) rest
+    | .bool b => .ok (if b then 1 else 0) rest
+    | .str s => (match o.parseInt s 10 with | some n => .ok n rest | none => .conv)
+    | .datum m lv =>
+      (match getD st dead m lv with
+       | some ⟨.int x, _⟩ => .ok x rest
+       | _ => .bad .badOperandType)               -- datum.GetInt panics
+    | _ => .bad .badOperandType
+
+def popFloat (o : Oracle) (st : MStore) (dead : List (Nat × Metric.LV Datum)) : List Val → P UInt64
+  | [] => .bad .stackUnderflow
+  | v :: rest =>
+    match v with
+    | .f64 b => .ok b rest
+    | .int n => .ok (o.i2f n) rest
+    | .i64 n => .ok (o.i2f n) rest
+    | .bool b => .ok (o.i2f (if b then 1 else 0)) rest
+    | .str s => (match o.parseFloat s with | some b => .ok b rest | none => .conv)
+    | .datum m lv =>
+      (match getD st dead m lv with
+       | some ⟨.float x, _⟩ => .ok x rest
+       | _ => .bad .badOperandType)
+    | _ => .bad .badOperandType
+
+def popString (o : Oracle) (st : MStore) (dead : List (Nat × Metric.LV Datum)) : List Val → P Bytes
+  | [] => .bad .stackUnderflow
+  | v :: rest =>
+    match v with
+    | .str s => .ok s rest
+    | .f64 b => .ok (o.fmtG b) rest
+    | .int n => .ok (itoa n) rest
+    | .i64 n => .ok (itoa n) rest
+    | .bool b => .ok (if b then "true" else "false").toUTF8.toList rest
+    | .datum m lv =>
+      (match getD st dead m lv with
+       | some ⟨.str x, _⟩ => .ok x rest
+       | _ => .bad .badOperandType)
+    | _ => .bad .badOperandType
+
+/-- continue with a popped value, or end the line the way `errorf` does -/
+def P.andThen {α : Type} (p : P α) (st : MStore) (k : α → List Val → Res) : Res :=
+  match p with
+  | .ok a rest => k a rest
+  | .bad f => .fault f st
+  | .conv => .err .convFailed st
+
+/-- pop `n` key strings (last key on top); keys come back in declaration order -/
+def popKeys (o : Oracle) (st : MStore) (dead : List (Nat × Metric.LV Datum)) :
+    Nat → List Val → List Bytes → P (List Bytes)
+  | 0, stack, acc => .ok acc stack
+  | n+1, stack, acc =>
+    match popString o st dead stack with
+    | .ok s rest => popKeys o st dead n rest (s :: acc)
+    | .bad f => .bad f
+    | .conv => .conv
+
+/-! ### comparison -/
 
 def cmpInt (a b : Int) (opnd : Int) : Option Bool :=
-  if opnd = -1 then some (a < b) else if opnd = 0 then some (a = b) else if opnd = 1 then some (a > b) else none
+  if opnd = -1 then some (decide (a < b)) else if opnd = 0 then some (decide (a = b))
+  else if opnd = 1 then some (decide (a > b)) else none
 
 def cmpStr (a b : Bytes) (opnd : Int) : Option Bool :=
-  if opnd = -1 then some (a < b) else if opnd = 0 then some (a = b) else if opnd = 1 then some (b < a) else none
+  if opnd = -1 then some (decide (a < b)) else if opnd = 0 then some (decide (a = b))
+  else if opnd = 1 then some (decide (b < a)) else none
 
 def cmpFloat (o : Oracle) (a b : UInt64) (opnd : Int) : Option Bool :=
   if opnd = -1 ∨ opnd = 0 ∨ opnd = 1 then some (o.fcmp a b opnd) else none
 
-/-- the zero datum of a metric's type (`GetDatum`'s switch) -/
-def zeroDatum (mi : MetricInfo) : Datum :=
-  match mi.typ with
-  | 0 => ⟨.int 0, none⟩
-  | 1 => ⟨.float 0, none⟩
-  | 2 => ⟨.str [], none⟩
-  | _ => ⟨.buckets (Buckets.make 0 mi.ranges), some zeroT⟩   -- MakeBuckets does not stamp
+inductive CmpRes | ok (b : Bool) | conv | types | operand
 
-/-- the stamp a datum update receives: the thread's time register, or the wall clock when unset -/
-def stampOf (t : Thread) : Option T := if t.time = zeroT then none else some t.time
+def ofOpt : Option Bool → CmpRes
+  | some b => .ok b
+  | none => .operand
 
-def updDatum (st : MStore) (m lv : Nat) (f : Datum → Datum) : MStore :=
-  match st[m]? with
-  | some mm => st.set m (Metric.updateDatum mm lv f)
-  | none => st
+/-- `compare(a, b, opnd)` with a float left operand -/
+def compareF (o : Oracle) (x : UInt64) (b : Val) (opnd : Int) : CmpRes :=
+  match b with
+  | .f64 y => ofOpt (cmpFloat o x y opnd)
+  | .i64 y => ofOpt (cmpFloat o x (o.i2f y) opnd)
+  | .int y => ofOpt (cmpFloat o x (o.i2f y) opnd)
+  | .str s => (match o.parseFloat s with | some y => ofOpt (cmpFloat o x y opnd) | none => .conv)
+  | _ => .types
 
-def lookupMatch (ms : List (Nat × List Bytes)) (re : Nat) : Option (List Bytes) :=
-  match ms.find? (·.1 = re) with
-  | some p => some p.2
-  | none => none
+/-- booleans are compared as 0 and 1 -/
+def unbool : Val → Val
+  | .bool b => .i64 (if b then 1 else 0)
+  | v => v
 
-/-- pop `n` keys (strings) below the metric, last key on top: returns keys in order -/
-def popKeys (o : Oracle) (st : MStore) : Nat → List Val → List Bytes → Option (Except Bool (List Bytes × List Val))
-  | 0, stack, acc => some (.ok (acc, stack))
-  | n+1, v :: rest, acc =>
-    match asString o st v with
-    | .ok s => popKeys o st n rest (s :: acc)
-    | .convErr => some (.error false)
-    | .typeErr => some (.error true)
-  | _+1, [], _ => none
+/-- the generic `compare(a, b, opnd)` used by `Cmp` -/
+def compareVals (o : Oracle) (a0 b0 : Val) (opnd : Int) : CmpRes :=
+  let a := unbool a0
+  let b := unbool b0
+  let intLeft := fun (x : Int) =>
+    match b with
+    | .f64 y => ofOpt (cmpFloat o (o.i2f x) y opnd)
+    | .i64 y => ofOpt (cmpInt x y opnd)
+    | .int y => ofOpt (cmpInt x y opnd)
+    | .str s => (match o.parseFloat s with
+                 | some y => ofOpt (cmpFloat o 0 y opnd)      -- sic: the Go code compares lxF, which is 0 here
+                 | none => .conv)
+    | _ => .types
+  match a with
+  | .f64 x => compareF o x b opnd
+  | .i64 x => intLeft x
+  | .int x => intLeft x
+  | .str s =>
+    (match o.parseFloat s with
+     | some x => compareF o x b opnd
+     | none =>
+       match b with
+       | .str s2 => ofOpt (cmpStr s s2 opnd)
+       | _ => .types)
+  | _ => .types
+
+/-! ### arithmetic -/
 
 def binInt (op : Opcode) (a b : Int) (o : Oracle) : Except RtErr Int :=
   match op with
@@ -214,55 +306,26 @@ def binInt (op : Opcode) (a b : Int) (o : Oracle) : Except RtErr Int :=
             else .ok (if b ≥ 64 then (if a < 0 then -1 else 0) else a / 2 ^ b.toNat)
   | .and => .ok (BitVec.ofInt 64 a &&& BitVec.ofInt 64 b).toInt
   | .or => .ok (BitVec.ofInt 64 a ||| BitVec.ofInt 64 b).toInt
-  | .xor => .ok (BitVec.ofInt 64 a ^^^ BitVec.ofInt 64 b).toInt
-  | _ => .ok 0
+  | _ => .ok (BitVec.ofInt 64 a ^^^ BitVec.ofInt 64 b).toInt
 
 def binFloat (o : Oracle) (op : Opcode) (a b : UInt64) : UInt64 :=
   match op with
   | .fadd => o.fadd a b | .fsub => o.fsub a b | .fmul => o.fmul a b
   | .fdiv => o.fdiv a b | .fmod => o.fmod a b | _ => o.fpow a b
 
-/-- the generic `compare(a, b, opnd)` used by `Cmp` -/
-def compareVals (o : Oracle) (a b : Val) (opnd : Int) : Option Bool :=
-  let isF := fun (v : Val) => match v with | .f64 x => some x | _ => none
-  let isI := fun (v : Val) => match v with | .i64 x => some x | .int x => some x | _ => none
-  let isS := fun (v : Val) => match v with | .str x => some x | _ => none
-  match isF a with
-  | some x =>
-    (match isF b, isI b, isS b with
-     | some y, _, _ => cmpFloat o x y opnd
-     | _, some y, _ => cmpFloat o x (o.i2f y) opnd
-     | _, _, some s => (o.parseFloat s).bind (fun y => cmpFloat o x y opnd)
-     | _, _, _ => none)
-  | none =>
-    match isI a with
-    | some x =>
-      (match isF b, isI b, isS b with
-       | some y, _, _ => cmpFloat o (o.i2f x) y opnd
-       | _, some y, _ => cmpInt x y opnd
-       | _, _, some s => (o.parseFloat s).bind (fun y => cmpFloat o 0 y opnd)   -- sic: compares lxF (= 0) in the Go code
-       | _, _, _ => none)
-    | none =>
-      match isS a with
-      | some s =>
-        (match o.parseFloat s with
-         | some x =>
-           (match isF b, isI b, isS b with
-            | some y, _, _ => cmpFloat o x y opnd
-            | _, some y, _ => cmpFloat o x (o.i2f y) opnd
-            | _, _, some s2 => (o.parseFloat s2).bind (fun y => cmpFloat o x y opnd)
-            | _, _, _ => none)
-         | none =>
-           match isS b with
-           | some s2 => cmpStr s s2 opnd
-           | none => none)
-      | none => none
+/-! ### datum updates -/
 
-/-- `Inc`/`Dec`/`Iset`/`Fset`/`Sset` target: the value under the operand must be a datum -/
-def withDatum (v : Val) : Option (Nat × Nat) :=
-  match v with
-  | .datum m lv => some (m, lv)
-  | _ => none
+/-- the zero datum of a metric's type (`GetDatum`'s switch; `MakeInt(0, zeroTime)` stamps with the
+    wall clock, `MakeBuckets` leaves the time at 0) -/
+def zeroDatum (mi : MetricInfo) : Datum :=
+  match mi.typ with
+  | 0 => ⟨.int 0, none⟩
+  | 1 => ⟨.float 0, none⟩
+  | 2 => ⟨.str [], none⟩
+  | _ => ⟨.buckets (Buckets.make 0 mi.ranges), some 0⟩
+
+/-- `BaseDatum.stamp` applied to the thread's time register -/
+def stampOf (time : T) : Option Int := if time = zeroT then none else some (wrap time)
 
 /-- order key of a float bit pattern (see Model/Buckets.lean) -/
 def fvKey (b : UInt64) : Buckets.FV :=
@@ -276,29 +339,436 @@ def observeB (o : Oracle) (b : Buckets.B UInt64) (v : UInt64) : Buckets.B UInt64
   { buckets := Buckets.bump (fvKey v) b.buckets, count := b.count + 1, sum := o.fadd b.sum v }
 
 /-- `datum.SetInt` / `SetFloat` / `SetString` / `IncIntBy`: `none` = the Go code panics -/
-def setIntD (o : Oracle) (d : Datum) (v : Int) (ts : Option T) : Option Datum :=
+def setIntD (o : Oracle) (d : Datum) (v : Int) (ts : Option Int) : Option Datum :=
   match d.val with
   | .int _ => some ⟨.int v, ts⟩
   | .buckets b => some ⟨.buckets (observeB o b (o.i2f v)), ts⟩
   | _ => none
 
-def setFloatD (o : Oracle) (d : Datum) (v : UInt64) (ts : Option T) : Option Datum :=
+def setFloatD (o : Oracle) (d : Datum) (v : UInt64) (ts : Option Int) : Option Datum :=
   match d.val with
   | .float _ => some ⟨.float v, ts⟩
   | .buckets b => some ⟨.buckets (observeB o b v), ts⟩
   | _ => none
 
-def setStringD (d : Datum) (v : Bytes) (ts : Option T) : Option Datum :=
+def setStringD (d : Datum) (v : Bytes) (ts : Option Int) : Option Datum :=
   match d.val with
   | .str _ => some ⟨.str v, ts⟩
   | _ => none
 
-def incIntD (d : Datum) (delta : Int) (ts : Option T) : Option Datum :=
+def incIntD (d : Datum) (delta : Int) (ts : Option Int) : Option Datum :=
   match d.val with
   | .int x => some ⟨.int (wrap (x + delta)), ts⟩
   | _ => none
 
-def getDatumOf (st : MStore) (m lv : Nat) : Option Datum :=
-  ((st[m]?).bind (fun mm => Metric.byId lv mm.lvs)).map (·.value)
+/-- pop a datum pointer and apply an update that may panic; the continuation sees the new datum -/
+def writeDatum (t : Thread) (st : MStore) (stack : List Val) (f : Datum → Option Datum)
+    (k : Thread → MStore → Datum → Res) : Res :=
+  match stack with
+  | [] => .fault .stackUnderflow st
+  | .datum m lv :: rest =>
+    (match getD st t.dead m lv with
+     | some d =>
+       (match f d with
+        | some d' =>
+          let r := updD st t.dead m lv (fun _ => d')
+          k { t with stack := rest, dead := r.2 } r.1 d'
+        | none => .fault .badOperandType st)
+     | none => .fault .badOperandType st)
+  | _ :: _ => .fault .badOperandType st
+
+/-- `Inc`/`Dec` push the new value (`datum.GetInt`) -/
+def afterInc (t' : Thread) (st' : MStore) (d' : Datum) : Res :=
+  match d'.val with
+  | .int x => .next { t' with stack := .i64 x :: t'.stack } st'
+  | _ => .fault .badOperandType st'
+
+def incBy (t : Thread) (st : MStore) (d : Int) (rest : List Val) : Res :=
+  writeDatum t st rest (fun x => incIntD x d (stampOf t.time)) afterInc
+
+def lookupCaps (cs : List (Nat × Option (List Bytes))) (re : Nat) : Option (List Bytes) :=
+  match cs with
+  | [] => none
+  | (r, v) :: rest => if r = re then v else lookupCaps rest re
+
+def setCaps (cs : List (Nat × Option (List Bytes))) (re : Nat) (v : Option (List Bytes)) :
+    List (Nat × Option (List Bytes)) := (re, v) :: cs
+
+/-! ### the strptime memo (`groupcache/lru`, 64 entries) -/
+
+def memoCap : Nat := 64
+
+def memoGet (k : Bytes × Bytes) : Memo → Option T
+  | [] => none
+  | (k', v) :: rest => if k' = k then some v else memoGet k rest
+
+def memoErase (k : Bytes × Bytes) : Memo → Memo
+  | [] => []
+  | (k', v) :: rest => if k' = k then rest else (k', v) :: memoErase k rest
+
+/-- `Get` on a hit moves the entry to the front -/
+def memoTouch (k : Bytes × Bytes) (v : T) (m : Memo) : Memo := (k, v) :: memoErase k m
+
+/-- `Add`: to the front; beyond the capacity the oldest entry is dropped -/
+def memoAdd (k : Bytes × Bytes) (v : T) (m : Memo) : Memo :=
+  ((k, v) :: memoErase k m).take memoCap
+
+/-! ### one instruction -/
+
+def argInt (i : Instr) : Option Int := match i.arg with | .int n => some n | _ => none
+
+/-- where a jump lands; a negative target crashes the fetch in `ProcessLogLine` -/
+def jumpTo (t : Thread) (st : MStore) (stack : List Val) (i : Instr) : Res :=
+  match argInt i with
+  | some n => if n < 0 then .fault .badJump st else .next { t with pc := n.toNat, stack := stack } st
+  | none => .fault .badOperand st
+
+/-- `Strptime`: the only instruction that consults the memo -/
+def stepStrptime (o : Oracle) (t : Thread) (st : MStore) (memo : Memo) : Res × Memo :=
+  match popString o st t.dead t.stack with
+  | .bad f => (.fault f st, memo)
+  | .conv => (.err .convFailed st, memo)
+  | .ok layout rest =>
+    let withTs := fun (ts : Bytes) (rest' : List Val) =>
+      match memoGet (layout, ts) memo with
+      | some tm => (Res.next { t with stack := rest', time := tm } st, memoTouch (layout, ts) tm memo)
+      | none =>
+        match o.timeParse layout ts with
+        | some tm => (Res.next { t with stack := rest', time := tm } st, memoAdd (layout, ts) tm memo)
+        | none => (Res.err .timeParseFailed st, memo)
+    match rest with
+    | [] => (.fault .stackUnderflow st, memo)
+    | .str s :: rest' => withTs s rest'
+    | .int g :: rest' =>
+      (match popInt o st t.dead rest' with
+       | .bad f => (.fault f st, memo)
+       | .conv => (.err .convFailed st, memo)
+       | .ok re rest'' =>
+         if re < 0 ∨ re ≥ 2147483647 then (.fault .badIndex st, memo)
+         else
+           match lookupCaps t.caps re.toNat with
+           | some groups =>
+             if g < 0 then (.fault .badIndex st, memo)
+             else (match groups[g.toNat]? with
+                   | some s => withTs s rest''
+                   | none => (.fault .badIndex st, memo))
+           | none => (.fault .badIndex st, memo))
+    | _ :: rest' => withTs [] rest'
+
+/-- every instruction except `Strptime` (`pc` has already been advanced) -/
+def stepCore (o : Oracle) (p : Prog) (inp : Input) (i : Instr) (t : Thread) (st : MStore) : Res :=
+  let stack := t.stack
+  let dead := t.dead
+  let push := fun (v : Val) (rest : List Val) => Res.next { t with stack := v :: rest } st
+  match i.op with
+  | .bad => .fault .badInstr st
+  | .strptime => .fault .badInstr st          -- handled by `stepStrptime`
+  | .stop => .stop st
+  | .match =>
+    (match argInt i with
+     | some n =>
+       if n < 0 ∨ n.toNat ≥ p.nre then .fault .badIndex st
+       else
+         let r := o.reMatch n.toNat inp.line
+         .next { t with caps := setCaps t.caps n.toNat r, stack := .bool r.isSome :: stack } st
+     | none => .fault .badOperand st)
+  | .smatch =>
+    (match argInt i with
+     | some n =>
+       (popString o st dead stack).andThen st fun s rest =>
+         if n < 0 ∨ n.toNat ≥ p.nre then .fault .badIndex st
+         else
+           let r := o.reMatch n.toNat s
+           .next { t with caps := setCaps t.caps n.toNat r, stack := .bool r.isSome :: rest } st
+     | none => .fault .badOperand st)
+  | .cmp =>
+    (match stack with
+     | b :: a :: rest =>
+       (match argInt i with
+        | some n =>
+          (match compareVals o a b n with
+           | .ok r => push (.bool r) rest
+           | .conv => .err .convFailed st
+           | .types => .fault .cmpTypes st
+           | .operand => .fault .badOperand st)
+        | none => .fault .badOperand st)
+     | _ => .fault .stackUnderflow st)
+  | .icmp =>
+    (popInt o st dead stack).andThen st fun b r1 =>
+    (popInt o st dead r1).andThen st fun a r2 =>
+      match (argInt i).bind (cmpInt a b) with
+      | some r => push (.bool r) r2
+      | none => .fault .badOperand st
+  | .fcmp =>
+    (popFloat o st dead stack).andThen st fun b r1 =>
+    (popFloat o st dead r1).andThen st fun a r2 =>
+      match (argInt i).bind (cmpFloat o a b) with
+      | some r => push (.bool r) r2
+      | none => .fault .badOperand st
+  | .scmp =>
+    (popString o st dead stack).andThen st fun b r1 =>
+    (popString o st dead r1).andThen st fun a r2 =>
+      match (argInt i).bind (cmpStr a b) with
+      | some r => push (.bool r) r2
+      | none => .fault .badOperand st
+  | .jnm =>
+    (match stack with
+     | [] => .fault .stackUnderflow st
+     | v :: rest =>
+       let jump := match v with | .bool b => !b | .i64 n => n == 0 | _ => false
+       if jump then jumpTo t st rest i else .next { t with stack := rest } st)
+  | .jm =>
+    (match stack with
+     | [] => .fault .stackUnderflow st
+     | v :: rest =>
+       let jump := match v with | .bool b => b | .i64 n => n != 0 | _ => false
+       if jump then jumpTo t st rest i else .next { t with stack := rest } st)
+  | .jmp => jumpTo t st stack i
+  | .inc | .dec =>
+    let withDelta := fun (delta : Int) (rest : List Val) =>
+      incBy t st (if i.op = .inc then delta else -delta) rest
+    (match i.arg with
+     | .none => withDelta 1 stack
+     | _ => (popInt o st dead stack).andThen st withDelta)
+  | .iset =>
+    (popInt o st dead stack).andThen st fun v rest =>
+      writeDatum t st rest (fun x => setIntD o x v (stampOf t.time)) fun t' st' _ => .next t' st'
+  | .fset =>
+    (popFloat o st dead stack).andThen st fun v rest =>
+      writeDatum t st rest (fun x => setFloatD o x v (stampOf t.time)) fun t' st' _ => .next t' st'
+  | .sset =>
+    (popString o st dead stack).andThen st fun v rest =>
+      -- a histogram observes the numeric value of the string
+      let isBuckets := match rest with
+        | .datum m lv :: _ => (match getD st dead m lv with | some ⟨.buckets _, _⟩ => true | _ => false)
+        | _ => false
+      if isBuckets then
+        match o.parseFloat v with
+        | some f => writeDatum t st rest (fun x => setFloatD o x f (stampOf t.time)) fun t' st' _ => .next t' st'
+        | none => .err .convFailed st
+      else
+        writeDatum t st rest (fun x => setStringD x v (stampOf t.time)) fun t' st' _ => .next t' st'
+  | .timestamp =>
+    if t.time = zeroT then push (.i64 o.nowSec) stack else push (.i64 (t.time / 1000000000)) stack
+  | .settime =>
+    (popInt o st dead stack).andThen st fun n rest =>
+      .next { t with stack := rest, time := n * 1000000000 } st
+  | .push =>
+    (match i.arg with
+     | .none => push .nil stack
+     | .int n => push (.int n) stack
+     | .bool b => push (.bool b) stack
+     | .i64 n => push (.i64 n) stack
+     | .f64 b => push (.f64 b) stack
+     | .dur n => push (.dur n) stack)
+  | .capref =>
+    (match stack with
+     | [] => .fault .stackUnderflow st
+     | .int re :: rest =>
+       (match argInt i with
+        | some g =>
+          if re < 0 then .err .captureOfUnmatched st       -- a map lookup that misses
+          else
+            (match (lookupCaps t.caps re.toNat).getD [] with
+             | groups =>
+               if (groups.length : Int) ≤ g then .err .captureOfUnmatched st
+               else if g < 0 then .fault .badIndex st
+               else match groups[g.toNat]? with
+                    | some s => push (.str s) rest
+                    | none => .fault .badIndex st)
+        | none => .fault .badOperand st)
+     | _ :: _ => .fault .badOperandType st)
+  | .str =>
+    (match argInt i with
+     | some n =>
+       if n < 0 then .fault .badIndex st
+       else (match p.strs[n.toNat]? with
+             | some s => push (.str s) stack
+             | none => .fault .badIndex st)
+     | none => .fault .badOperand st)
+  | .fadd | .fsub | .fmul | .fdiv | .fmod | .fpow =>
+    (popFloat o st dead stack).andThen st fun b r1 =>
+    (popFloat o st dead r1).andThen st fun a r2 =>
+      push (.f64 (binFloat o i.op a b)) r2
+  | .iadd | .isub | .imul | .idiv | .imod | .ipow | .shl | .shr | .and | .or | .xor =>
+    (popInt o st dead stack).andThen st fun b r1 =>
+    (popInt o st dead r1).andThen st fun a r2 =>
+      match binInt i.op a b o with
+      | .ok r => push (.i64 r) r2
+      | .error e => .err e st
+  | .neg =>
+    (popInt o st dead stack).andThen st fun a rest => push (.i64 (-a - 1)) rest
+  | .not =>
+    (match stack with
+     | [] => .fault .stackUnderflow st
+     | .bool b :: rest => push (.bool (!b)) rest
+     | _ :: _ => .fault .badOperandType st)
+  | .mload =>
+    (match argInt i with
+     | some n =>
+       if n < 0 ∨ n.toNat ≥ p.metrics.length then .fault .badIndex st
+       else push (.metric n.toNat) stack
+     | none => .fault .badOperand st)
+  | .dload =>
+    (match stack with
+     | [] => .fault .stackUnderflow st
+     | .metric m :: rest =>
+       (match argInt i with
+        | some n =>
+          if n < 0 then .fault .badOperand st
+          else
+            (popKeys o st dead n.toNat rest []).andThen st fun keys rest' =>
+              match st[m]?, p.metrics[m]? with
+              | some mm, some mi =>
+                (match Metric.getDatum mm (zeroDatum mi) keys with
+                 | .ok (mm', id) => .next { t with stack := .datum m id :: rest' } (st.set m mm')
+                 | .error _ => .err .arity st)
+              | _, _ => .fault .badIndex st
+        | none => .fault .badOperand st)
+     | _ :: _ => .fault .badOperandType st)
+  | .iget =>
+    (match stack with
+     | [] => .fault .stackUnderflow st
+     | .datum m lv :: rest =>
+       (match getD st dead m lv with
+        | some ⟨.int x, _⟩ => push (.i64 x) rest
+        | _ => .fault .badOperandType st)
+     | _ :: _ => .fault .badOperandType st)
+  | .fget =>
+    (match stack with
+     | [] => .fault .stackUnderflow st
+     | .datum m lv :: rest =>
+       (match getD st dead m lv with
+        | some ⟨.float x, _⟩ => push (.f64 x) rest
+        | _ => .fault .badOperandType st)
+     | _ :: _ => .fault .badOperandType st)
+  | .sget =>
+    (match stack with
+     | [] => .fault .stackUnderflow st
+     | .datum m lv :: rest =>
+       (match getD st dead m lv with
+        | some ⟨.str x, _⟩ => push (.str x) rest
+        | _ => .fault .badOperandType st)
+     | _ :: _ => .fault .badOperandType st)
+  | .del =>
+    (match stack with
+     | [] => .fault .stackUnderflow st
+     | .metric m :: rest =>
+       (match argInt i with
+        | some n =>
+          if n < 0 then .fault .badOperand st
+          else
+            (popKeys o st dead n.toNat rest []).andThen st fun keys rest' =>
+              match st[m]? with
+              | some mm =>
+                (match Metric.removeDatum mm keys with
+                 | .ok mm' =>
+                   let gone := match Metric.find mm keys with
+                               | some l => [(m, l)]
+                               | none => []
+                   .next { t with stack := rest', dead := gone ++ dead } (st.set m mm')
+                 | .error _ => .err .arity st)
+              | none => .fault .badIndex st
+        | none => .fault .badOperand st)
+     | _ :: _ => .fault .badOperandType st)
+  | .expire =>
+    (match stack with
+     | [] => .fault .stackUnderflow st
+     | .metric m :: rest =>
+       (match argInt i with
+        | some n =>
+          if n < 0 then .fault .badOperand st
+          else
+            (popKeys o st dead n.toNat rest []).andThen st fun keys rest' =>
+              match rest' with
+              | [] => .fault .stackUnderflow st
+              | .dur e :: rest'' =>
+                (match st[m]? with
+                 | some mm =>
+                   (match Metric.expireDatum mm e keys with
+                    | .ok mm' => .next { t with stack := rest'' } (st.set m mm')
+                    | .error .arity => .err .arity st
+                    | .error .noDatum => .err .expireMissingDatum st)
+                 | none => .fault .badIndex st)
+              | _ :: _ => .fault .badOperandType st
+        | none => .fault .badOperand st)
+     | _ :: _ => .fault .badOperandType st)
+  | .tolower =>
+    (popString o st dead stack).andThen st fun s rest => push (.str (o.toLower s)) rest
+  | .length =>
+    (popString o st dead stack).andThen st fun s rest => push (.int s.length) rest
+  | .s2i =>
+    let conv := fun (base : Int) (stk : List Val) =>
+      (popString o st dead stk).andThen st fun s rest =>
+        match o.parseInt s base with
+        | some n => push (.i64 n) rest
+        | none => .err .convFailed st
+    (match i.arg with
+     | .none => conv 10 stack
+     | _ =>
+       (popInt o st dead stack).andThen st fun b rest =>
+         if b ≤ 0 ∨ b ≥ 2147483647 then .err .baseOutOfRange st else conv b rest)
+  | .s2f =>
+    (popString o st dead stack).andThen st fun s rest =>
+      match o.parseFloat s with
+      | some b => push (.f64 b) rest
+      | none => .err .convFailed st
+  | .i2f => (popInt o st dead stack).andThen st fun n rest => push (.f64 (o.i2f n)) rest
+  | .i2s => (popInt o st dead stack).andThen st fun n rest => push (.str (itoa n)) rest
+  | .f2s => (popFloat o st dead stack).andThen st fun b rest => push (.str (o.fmtg b)) rest
+  | .setmatched =>
+    (match i.arg with
+     | .bool b => .next { t with matched := b } st
+     | _ => .fault .badOperand st)
+  | .otherwise => push (.bool (!t.matched)) stack
+  | .getfilename => push (.str inp.filename) stack
+  | .cat =>
+    (popString o st dead stack).andThen st fun b r1 =>
+    (popString o st dead r1).andThen st fun a r2 => push (.str (a ++ b)) r2
+  | .subst =>
+    (popString o st dead stack).andThen st fun v r1 =>
+    (popString o st dead r1).andThen st fun repl r2 =>
+    (popString o st dead r2).andThen st fun old r3 => push (.str (o.replaceAll v old repl)) r3
+  | .rsubst =>
+    (popInt o st dead stack).andThen st fun pat r1 =>
+    (popString o st dead r1).andThen st fun v r2 =>
+    (popString o st dead r2).andThen st fun repl r3 =>
+      if pat < 0 ∨ pat.toNat ≥ p.nre then .fault .badIndex st
+      else push (.str (o.reReplace pat.toNat v repl)) r3
+
+/-- one fetch-execute cycle body: `pc` is advanced, then the instruction runs -/
+def step (o : Oracle) (p : Prog) (inp : Input) (i : Instr) (t : Thread) (st : MStore) (memo : Memo) :
+    Res × Memo :=
+  let t1 := { t with pc := t.pc + 1 }
+  if i.op = .strptime then stepStrptime o t1 st memo
+  else (stepCore o p inp i t1 st, memo)
+
+/-- how a line ends -/
+inductive Outcome
+  | done | stopped | err (e : RtErr) | fault (f : Fault) | fuel
+deriving DecidableEq, Repr
+
+structure LineResult where
+  out : Outcome
+  store : MStore
+  memo : Memo
+
+/-- `ProcessLogLine`'s loop (fuel bounds the number of instructions; programs whose jumps all go
+    forward need at most `code.length` of it) -/
+def run (o : Oracle) (p : Prog) (inp : Input) : Nat → Thread → MStore → Memo → LineResult
+  | 0, _, st, memo => ⟨.fuel, st, memo⟩
+  | fuel+1, t, st, memo =>
+    match p.code[t.pc]? with
+    | none => ⟨.done, st, memo⟩
+    | some i =>
+      match step o p inp i t st memo with
+      | (.next t' st', memo') => run o p inp fuel t' st' memo'
+      | (.stop st', memo') => ⟨.stopped, st', memo'⟩
+      | (.err e st', memo') => ⟨.err e, st', memo'⟩
+      | (.fault f st', memo') => ⟨.fault f, st', memo'⟩
+
+/-- a fresh thread per line -/
+def runLine (o : Oracle) (p : Prog) (fuel : Nat) (inp : Input) (st : MStore) (memo : Memo) : LineResult :=
+  run o p inp fuel {} st memo
 
 end MtailVerif.VM
